@@ -7,6 +7,10 @@ the marshalling code itself (src/jet/elements/{c_env,environment}.rs, simplicity
                (amount / inflation_keys, amount_range_proof / inflation_keys_range_proof, asset / nonce, value of the
                spent output / of the issuance, …).  Names are the only witness of which same-typed datum is which; the
                rule fires only when exchanging the sources of two fields improves the name match of both
+  C15.passover a field of a marshalling struct whose name is also the name of a field of the (library or foreign-crate)
+               structure its value is read from is read from that like-named field, not from a same-typed sibling of it
+               (`genesis_hash` from `PeginData::genesis_hash`, not from `PeginData::referenced_block`); field lists of
+               foreign-crate types are extracted by the driver for every type the crate projects a field of
   C15.args     calls between the marshalling functions pass same-typed arguments in the callee's parameter order
                (same criterion on parameter names)
   C15.alloc    the C objects malloc'ed for an environment (transaction, tap env) are the ones stored in the CTxEnv and
@@ -20,6 +24,7 @@ import expr
 from facts import Terms, leaves, calls_in
 
 MODS = ("simplicity::jet::elements::c_env::", "simplicity::jet::elements::environment::", "simplicity::jet::elements::")
+PASSOVER_FLOOR = 25
 FINISH = dict(level="other",
               explanation="Name-consistency (anti-swap) rule over the provenance of every field of every struct literal and of "
                           "same-typed call arguments in the environment marshalling code, plus an ownership rule for the "
@@ -134,6 +139,7 @@ def swap_pairs(names, types, terms):
 def run(ctx, rep):
     F = ctx.facts("full")
     rep.rule("C15.wiring", "same-typed fields of a struct literal are initialised from the like-named source, not from each other's")
+    rep.rule("C15.passover", "a field named like a field of the structure it is read from is read from that field, not from a same-typed sibling")
     rep.rule("C15.args", "same-typed arguments between marshalling functions follow the callee's parameter names")
     rep.rule("C15.alloc", "malloc'ed C objects are stored in the CTxEnv and freed once each; c_set_txEnv gets (tx, taproot, genesis, ix)")
     fns = [f for f in F.fns.values() if f.path.startswith(MODS[:2]) or f.path.startswith("simplicity::jet::elements::environment")]
@@ -142,6 +148,8 @@ def run(ctx, rep):
         rep.anchor("C15.wiring", "functions of simplicity::jet::elements::c_env")
         return FINISH
     n_lit = 0
+    n_po = 0
+    _STEPS.clear()
     for f in sorted(fns, key=lambda x: x.path):
         T = Terms(f)
         for b in f.rpo():
@@ -163,6 +171,7 @@ def run(ctx, rep):
                 n_lit += 1
                 sw = swap_pairs(names, types, terms)
                 key = "%s in %s" % (s[2]["adt"].rsplit("::", 1)[-1], fm.short(f.path))
+                n_po += passover(F, rep, f, s, key, names, types, terms)
                 if sw:
                     for (i, j, k, wi, wj) in sw:
                         if k == -1:
@@ -177,6 +186,8 @@ def run(ctx, rep):
                     rep.ok("C15.wiring", key, "%d fields" % len(names))
     rep.count("struct_literals", n_lit)
     rep.floor("C15.wiring", n_lit, 9)
+    rep.count("like_named_source_fields", n_po)
+    rep.floor("C15.passover", n_po, PASSOVER_FLOOR)
     # calls between marshalling functions
     n_calls = 0
     for f in sorted(fns, key=lambda x: x.path):
@@ -203,6 +214,181 @@ def run(ctx, rep):
     rep.floor("C15.args", n_calls, 4)
     alloc(F, rep)
     return FINISH
+
+
+# ---------------------------------------------------------------- C15.passover
+def _strip_ty(t):
+    t = t.strip()
+    while True:
+        m = re.match(r"^&(?:'[A-Za-z_0-9]+ )?(?:mut )?", t)
+        if m and m.group(0):
+            t = t[m.end():].strip()
+            continue
+        m = re.match(r"^(?:std::boxed::Box|std::sync::Arc|std::rc::Rc)<(.*)>$", t)
+        if m and "," not in m.group(1):
+            t = m.group(1).strip()
+            continue
+        break
+    depth = 0
+    for i, ch in enumerate(t):
+        if ch == "<":
+            if depth == 0:
+                return t[:i]
+            depth += 1
+        elif ch == ">":
+            depth -= 1
+    return t
+
+
+def _adt_of(F, ty):
+    base = _strip_ty(ty)
+    allad = dict(getattr(F, "foreign_adts", {}))
+    allad.update(F.adts)
+    if base in allad:
+        return allad[base]
+    last = base.rsplit("::", 1)[-1]
+    c = [a for p_, a in allad.items() if p_.rsplit("::", 1)[-1] == last]
+    return c[0] if len(c) == 1 else None
+
+
+def field_steps(F, f, place):
+    """[(owner adt, field name, field type)] of the field projections of a MIR place, owners resolved from the local's type"""
+    out = []
+    loc = f.locals[place[0]]
+    ty = loc if isinstance(loc, str) else loc.get("ty")
+    adt = _adt_of(F, ty) if ty else None
+    variant = None
+    for st in place[1]:
+        if st == "*":
+            continue
+        if st.startswith("@"):
+            variant = st[1:]
+            continue
+        if not st.startswith("."):
+            return out
+        if adt is None:
+            return out
+        vs = adt["variants"]
+        v = next((x for x in vs if x["name"] == variant), None) if variant else (vs[0] if len(vs) == 1 else None)
+        variant = None
+        if v is None:
+            return out
+        fd = next((x for x in v["fields"] if x["name"] == st[1:]), None)
+        if fd is None:
+            return out
+        out.append((adt, fd["name"], fd["ty"]))
+        adt = _adt_of(F, fd["ty"])
+    return out
+
+
+def _places(x, out):
+    if isinstance(x, dict):
+        for v in x.values():
+            _places(v, out)
+    elif isinstance(x, list):
+        if len(x) >= 2 and isinstance(x[0], int) and not isinstance(x[0], bool) and isinstance(x[1], list) and x[1] \
+                and all(isinstance(e, str) for e in x[1]):
+            out.append(x)
+        for v in x:
+            _places(v, out)
+
+
+def closures_in(t, out=None):
+    out = [] if out is None else out
+    if isinstance(t, tuple):
+        if t and t[0] == "closure" and len(t) > 1 and isinstance(t[1], str):
+            out.append(t[1])
+        for y in t:
+            closures_in(y, out)
+    return out
+
+
+_STEPS = {}
+
+
+def _methods_of(F, adt_path):
+    """names of the inherent methods of an ADT (library type: from its impls; foreign type: extracted by the driver)"""
+    if adt_path in F.foreign_methods:
+        return F.foreign_methods[adt_path]
+    return {g.name for g in F.fns.values() if g.impl_adt == adt_path and not g.impl_trait and g.kind == "AssocFn"}
+
+
+def passover(F, rep, f, s, key, names, types, terms):
+    """a field named like a field (or an argument-less method) of a structure the function reads from is read from THAT
+    member, not from a same-typed sibling of it (`genesis_hash: pegin.referenced_block`, `txid: tx.wtxid()`,
+    `script_sig: utxo.script_pubkey`)"""
+    n = 0
+    for i, nm in enumerate(names):
+        fns_ = [f] + [F.fns[c] for c in closures_in(terms[i]) if c in F.fns]
+        ws = set(words(terms[i]))
+        cterms = [terms[i]]
+        for c in fns_[1:]:
+            ct = Terms(c).local(0)
+            cterms.append(ct)
+            ws |= set(words(ct))
+        steps = []
+        for g in fns_:
+            if g.path not in _STEPS:
+                pl = []
+                _places(g.blocks, pl)
+                acc = []
+                for p_ in pl:
+                    acc += field_steps(F, g, p_)
+                _STEPS[g.path] = acc
+            steps += _STEPS[g.path]
+        read_names = {norm(g_name) for _a, g_name, _t in steps if g_name in ws}
+        # structures of which this function reads a field, with their fields named like the target
+        namesakes = {}
+        for adt, _g, _t in steps:
+            for v in adt["variants"]:
+                for x in v["fields"]:
+                    if norm(x["name"]) == norm(nm):
+                        namesakes[(adt["path"], x["name"])] = x["ty"]
+        seen = set()
+        for adt, g_name, g_ty in steps:
+            if g_name not in ws or (adt["path"], g_name) in seen:
+                continue
+            seen.add((adt["path"], g_name))
+            if not namesakes:
+                continue
+            if norm(g_name) == norm(nm):
+                n += 1
+                rep.ok("C15.passover", "%s:%s <- %s.%s" % (key, nm, adt["path"].rsplit("::", 1)[-1], g_name), None)
+                continue
+            if norm(nm) in read_names:
+                continue   # the like-named member is read as well (e.g. a pointer and its backing buffer)
+            cands = [(ap, fn_) for (ap, fn_), ty in namesakes.items() if ty == g_ty]
+            if not cands:
+                continue
+            n += 1
+            ap, fn_ = sorted(cands, key=lambda c: (c[0] != adt["path"], c))[0]
+            rep.violation("C15.passover", "%s:%s<-%s" % (key, nm, g_name),
+                          "%s: field `%s` is read from `%s.%s` although `%s` has a field `%s` of the same type (%s), which is not read"
+                          % (key, nm, adt["path"].rsplit("::", 1)[-1], g_name, ap.rsplit("::", 1)[-1], fn_, g_ty),
+                          "%s:%s" % (f.file, s[3] if len(s) > 3 else f.line))
+        # argument-less methods: `txid: tx.wtxid()` while Transaction::txid exists
+        called = []
+        for ct in cterms:
+            for c in calls_in(ct):
+                if len(c[3]) == 1 and isinstance(c[1], str) and "::" in c[1]:
+                    called.append(c)
+        called_names = {norm(c[2]) for c in called}
+        for c in called:
+            owner = c[1].rsplit("::", 1)[0]
+            owner = re.sub(r"::<[^<>]*(?:<[^<>]*>[^<>]*)*>$", "", owner)
+            ms = _methods_of(F, owner)
+            if not ms or not any(norm(m) == norm(nm) for m in ms):
+                continue
+            if norm(c[2]) == norm(nm):
+                n += 1
+                rep.ok("C15.passover", "%s:%s <- %s::%s()" % (key, nm, owner.rsplit("::", 1)[-1], c[2]), None)
+            elif norm(nm) not in called_names and norm(nm) not in read_names and norm(nm) in norm(c[2]):
+                n += 1
+                rep.violation("C15.passover", "%s:%s<-%s()" % (key, nm, c[2]),
+                              "%s: field `%s` is computed by `%s::%s()` although `%s::%s()` exists and is not called"
+                              % (key, nm, owner.rsplit("::", 1)[-1], c[2], owner.rsplit("::", 1)[-1], nm),
+                              "%s:%s" % (f.file, s[3] if len(s) > 3 else f.line))
+    return n
 
 
 def alloc(F, rep):
